@@ -15,7 +15,7 @@ checks = [prop]
 if "--checks" in sys.argv:
     checks = sys.argv[sys.argv.index("--checks") + 1].split(",")
 tier = sys.argv[sys.argv.index("--tier") + 1] if "--tier" in sys.argv else "quick"
-wt = "/tmp/cs-%s" % seed_id
+wt = "/tmp/cs-wt"  # fixed path: sequential confirmations share build artefacts (target /tmp/cs-target, alt harness target)
 log = []
 
 
@@ -28,21 +28,29 @@ def run(cmd, cwd=None, env=None, timeout=3600):
 
 
 def cleanup():
-    subprocess.run(["git", "-C", "/repo", "worktree", "remove", "--force", wt], stdout=subprocess.DEVNULL, stderr=subprocess.DEVNULL)
-    shutil.rmtree(wt, ignore_errors=True)
-    tag = wt.strip("/").replace("/", "_").replace("-", "_")
-    for d in ("/verif/.target/alt-" + tag, "/tmp/vf-alt-" + tag, "/tmp/vf-alt-" + tag + "-out"):
+    """Reset the shared scratch worktree to /repo's HEAD (kept between confirmations; remove with --final-cleanup)."""
+    if os.path.isdir(wt):
+        subprocess.run(["git", "-C", wt, "checkout", "-q", "--", "."], stdout=subprocess.DEVNULL, stderr=subprocess.DEVNULL)
+        subprocess.run(["git", "-C", wt, "clean", "-fdq", "-e", "target"], stdout=subprocess.DEVNULL, stderr=subprocess.DEVNULL)
+
+
+if "--final-cleanup" in sys.argv:
+    subprocess.run(["git", "-C", "/repo", "worktree", "remove", "--force", wt])
+    for d in (wt, "/tmp/cs-target", "/verif/.target/alt-tmp_cs_wt", "/tmp/vf-alt-tmp_cs_wt", "/tmp/vf-alt-tmp_cs_wt-out"):
         shutil.rmtree(d, ignore_errors=True)
+    sys.exit(0)
 
-
-cleanup()
 subprocess.run(["git", "-C", "/repo", "worktree", "prune"])
-rc, _ = run(["git", "-C", "/repo", "worktree", "add", "--detach", wt, "HEAD"])
+if not os.path.isdir(wt):
+    rc, _ = run(["git", "-C", "/repo", "worktree", "add", "--detach", wt, "HEAD"])
+    assert rc == 0, log[-1]
+cleanup()
+head = subprocess.run(["git", "-C", "/repo", "rev-parse", "HEAD"], stdout=subprocess.PIPE, text=True).stdout.strip()
+rc, _ = run(["git", "-C", wt, "checkout", "-q", "--detach", head])
 assert rc == 0, log[-1]
-if os.path.isdir("/repo/target"):
-    run("cp -a /repo/target %s/target" % wt)
 meta = {"seed_id": seed_id, "property": prop, "repo_head": subprocess.run(["git", "-C", "/repo", "rev-parse", "--short", "HEAD"], stdout=subprocess.PIPE, text=True).stdout.strip()}
 env = dict(os.environ)
+env["CARGO_TARGET_DIR"] = "/tmp/cs-target"
 env["CARGO_NET_OFFLINE"] = "true"
 env.pop("RUSTFLAGS", None)
 demo = os.path.join(change_dir, "demo.sh")
@@ -61,7 +69,7 @@ if ok:
         meta["reject"] = "patch does not apply: " + out[-300:]
 # 3. baseline
 if ok and not skip_baseline:
-    rc, out = run(["/verif/tools/baseline_check.py", wt], env=env, timeout=5400)
+    rc, out = run(["/verif/tools/baseline_check.py", wt, "--target", "/tmp/cs-target", "--only-stable"], env=env, timeout=5400)
     meta["baseline_rc"] = rc
     meta["baseline_summary"] = [l for l in out.splitlines() if l.startswith("baseline") or "REGRESSION" in l][:10]
     if rc != 0:
